@@ -649,6 +649,11 @@ def hardening(ctx, run: Runner):
                      (M(country="US", loss_details={"cov": "y"}), P1, E1, {"paid": 6})])
     T["ld_y"] = tri([(M(country="DE", loss_details={"cov": "y"}), P1, E1, {"rep": 7}),
                      (M(country="US", loss_details={"cov": "y", "peril": "w"}), P1, E1, {"rep": 8})])
+    # M: operands / sibling slices whose ONLY difference is a pair of values with colliding CPython hashes
+    T["hc_a"] = tri([(M(details={"v": -1}), P1, E1, {"paid": 1}), (M(loss_details={"w": -1.0}), P1, E1, {"paid": 2}),
+                     (M(per_occurrence_limit=0), P1, E1, {"paid": 3}), (M(details={"v": -2}), P2, E1, {"paid": 4})])
+    T["hc_b"] = tri([(M(details={"v": -2}), P1, E1, {"rep": 10}), (M(loss_details={"w": -2.0}), P1, E1, {"rep": 20}),
+                     (M(per_occurrence_limit=2 ** 61 - 1), P1, E1, {"rep": 30}), (M(details={"v": -2.0}), P2, E1, {"rep": 40})])
     # I: restated cells (same coordinates, other values) inside an operand
     T["restated_l"] = tri([(m0, P1, E1, {"paid": 1}), (m0, P1, E1, {"paid": 2, "rep": 3}), (m0, P2, E1, {"paid": 4})])
     T["restated_r"] = tri([(m0, P1, E1, {"paid": 10}), (m0, P1, E1, {"rep": 30, "paid": None})])
@@ -682,11 +687,12 @@ def hardening(ctx, run: Runner):
              ("ld_x", "ld_y"), ("ld_y", "ld_x"), ("restated_l", "restated_r"), ("restated_r", "restated_l"),
              ("nested_l", "nested_r"), ("nested_l", "nested_r1"), ("nested_r", "nested_l"), ("np_l", "np_r"),
              ("np_r", "np_l"), ("np_py", "np_l"), ("np_l", "np_py"), ("dt_l", "dt_r"), ("dt_r", "dt_l"),
-             ("one", "vals"), ("vals", "one"), ("one", "none"), ("none", "one")]
+             ("one", "vals"), ("vals", "one"), ("one", "none"), ("none", "one"), ("hc_a", "hc_b"), ("hc_b", "hc_a")]
     for x, y in pairs:
         coq = ok[x] and ok[y]
         a, b_ = f"h_{x}", f"h_{y}"
-        ons = [None, ["cov"], ["country", "cov", "peril"]] if x.startswith("ld_") else \
+        ons = [None, ["v"], ["w", "per_occurrence_limit"]] if x.startswith("hc_") else \
+              [None, ["cov"], ["country", "cov", "peril"]] if x.startswith("ld_") else \
               [None, ["per_occurrence_limit"], ["country"]] if x.startswith(("c_", "lim")) else [None, ["lob"]]
         for jt in JOIN_TYPES:
             for on in ons:
@@ -851,6 +857,11 @@ def correspond(ctx):
     run = Runner(ctx, cases)
     directed(ctx, run)
     hardening(ctx, run)
+    for basis in ("cum", "inc"):       # family O: objects that crossed a process boundary
+        probs, err = jc.cross_process_probe(ctx, basis)
+        ctx.hist("cross-process probe (pickled under another PYTHONHASHSEED)")
+        ctx.obligation(f"cross-process probe runs ({basis})", err is None, err or "")
+        run.record({"op": "cross_process", "basis": basis}, probs, True)
     exhaustive(ctx, run, "cum", full_coq=not ctx.quick)
     exhaustive(ctx, run, "inc", full_coq=not ctx.quick)
     random_pairs(ctx, run, 60 if ctx.quick else 400)
@@ -964,6 +975,14 @@ def replay(ctx, data):
     elif op == "period_merge":
         res = call(lambda: t1.period_merge(t2, suffix=data.get("suffix")))
         probs = oracle_pm(t1, t2, data.get("suffix"), res)
+    elif op == "cross_process":
+        probs, err = jc.cross_process_probe(ctx, data.get("basis", "cum"))
+        res = RuntimeError(err) if err else []
+        t1 = t2 = None
+        print("a triangle hashed + pickled under PYTHONHASHSEED=101, unpickled under PYTHONHASHSEED=202 and combined "
+              "with locally built equal cells (universe of harness/c10.py)")
+        if err:
+            probs = [err]
     elif op == "state":
         class _R:       # re-run the whole small stream and report what fails
             pass
